@@ -13,7 +13,8 @@ EXPLANATION = (
     "(4) no API that lets a file descriptor escape its owner is called; (5) in process_request the Ok edge of copy_bidi reaches "
     "set_state(Terminated) and on_finish, the Err edge on_error. Does not decide FIN/RST timing or promptness."
     " ERR2: every Ok(n) returned by the splice helper carries the splice system call's own count (never a constant standing for an error)."
-    ' LINGER: no socket of the proxy is configured for an abortive close (SO_LINGER).')
+    ' LINGER: no socket of the proxy is configured for an abortive close (SO_LINGER).'
+    ' FWD: stream adapters that implement AsyncRead/AsyncWrite by delegation forward each poll method to the inner method of the same name.')
 RULE_TEXT = "instances = sink variants, transfer arms, exit edges, escape APIs"
 TRUSTED = ["tokio shutdown()/AsyncFd semantics", "dropping a socket closes it"]
 NOT_DECIDED = ["FIN vs RST timing, promptness", "TLS close_notify"]
